@@ -29,6 +29,7 @@ const (
 )
 
 type Val struct {
+	Dyn types.Type // dynamic type of a value boxed in an interface (MakeInterface of a pointer)
 	K     ValKind
 	T     string     // SMT term (VTerm)
 	S     string     // sort of T
